@@ -632,7 +632,7 @@ func init() {
 			"radius.Client.SendAccounting (attribute encoding, gigaword split, Message-Authenticator, rate limiter)", "layeh/radius packet encode + parse"},
 		Stub: []string{"RADIUS server and UDP transport (sim.RadiusNet replaces radius.Exchange; layeh's UDP retransmit loop is not run)",
 			"file system under the accounting directory (sim.FS, process-crash model)"},
-		Rule:         "cases: 4-24 start/stop/counter/sleep/outage/ackloss/graceful-stop ops over <=3 sessions, crash at tape-chosen disk/network steps, restart from the surviving directory, fault-free tail; non-trivial = >=3 completed operations and (a fault fired or >2 context switches); distinct = distinct (case hash, schedule fingerprint)",
+		Rule:         "cases: 4-24 start/stop/counter/sleep/outage/ackloss/graceful-stop ops over <=3 sessions, crash at tape-chosen disk/network steps (also during a restart's own recovery work), in a quarter of the runs a short shutdown timeout (2-10 s) that a graceful stop during an outage runs into, restart from the surviving directory, fault-free tail; non-trivial = >=3 completed operations and (a fault fired or >2 context switches); distinct = distinct (case hash, schedule fingerprint)",
 		QuickRuns:    20000,
 		ThoroughRuns: 1500000,
 		Assumptions: []string{"process-crash disk model (each syscall-level step atomic and durable; no power loss)", "per record at most MaxRetries-1 failed exchanges (the statement's retry budget)",
